@@ -721,7 +721,7 @@ def add_diagonalize_bookkeeping(plan, tier):
         plan.fn_under_contract(DG, q)
     for ob in obligations_for("C20", fc, tier):
         plan.add(ob)
-    return {"bounds": [f"_diagonalize_subset_of_pauli_obs: {len(shapes)} measurement lists: every single measurement of "
+    return {"bounds": [f"_diagonalize_subset_of_pauli_obs: {n_pauli_shapes} Pauli measurement lists: every single measurement of "
                        f"{len(DG_OBS)} observable shapes (leaves X / Y / Z / Hadamard / Identity, products of two leaves, expval / var) and "
                        f"{len(DG_CB)} computational-basis shapes (probs / sample / counts with 0..2 wires), all ordered pairs "
                        "computational-basis x observable and observable x observable, 2 computational-basis pairs, "
@@ -733,7 +733,11 @@ def add_diagonalize_bookkeeping(plan, tier):
                        "identity (matrix) is an uninterpreted label"],
             "assumed": ["X / Y / Hadamard(w).diagonalizing_gates(): a basis change G on wire w with G^dagger Z(w) G == the observable (none "
                         "for Z / Identity); measuring unchanged observables on wires without basis change is unaffected",
-                        "functools.singledispatch of _diagonalize_non_basic_observable: a CompositeOp (Prod) goes to _diagonalize_composite_op",
+                        "functools.singledispatch of _diagonalize_non_basic_observable: a CompositeOp (Prod) goes to _diagonalize_composite_op, "
+                        "a non-Pauli, non-composite observable (Hermitian ...) to the default body",
+                        "an opaque non-Pauli observable keeps its result iff no basis change acts on any of its wires; two such observables "
+                        "are equal (set membership) iff same matrix label and same wires; it is never known to commute with a different "
+                        "non-identity observable or a computational-basis measurement on a shared wire",
                         "operator equality / hashing in python sets: same class and same wires; measurement_process.samples_computational_basis "
                         "== (obs is None); type(m)(obs) builds the same kind of measurement of obs; qp.wires.Wires([]) == m.wires iff m has no wires"],
             "assumptions": ["diagonalize bookkeeping: tape.wires are the distinct wires of the tape and contain every measurement wire"]}
